@@ -174,6 +174,94 @@ func c13(c *Ctx) {
 		{fn: "codecs/av1/obu.ReadLeb128", want: []int{1}, minOnly: true, why: "a one-octet LEB128 value"}})
 	r.Floor("AV1 layout/structure rows", n, 15)
 	lostUpdateRule(c, "/codecs", "/codecs/av1/frame", "/codecs/av1/obu")
+	// a pending OBU handed to appendOBUPayload is not handed over again: after the call the variable must not
+	// keep the same value on any way back to another such call (the reset `currentOBUPayload = nil` right
+	// after the flush; moved into a branch, the OBU before a dropped tile list is packetized twice)
+	if pf := p.Func("codecs.(*AV1Payloader).Payload"); pf != nil {
+		isFlush := func(in ssa.Instruction) (*ssa.Call, ssa.Value) {
+			call, ok := in.(*ssa.Call)
+			if !ok || call.Call.StaticCallee() == nil || call.Call.StaticCallee().Name() != "appendOBUPayload" || len(call.Call.Args) < 3 {
+				return nil, nil
+			}
+			return call, call.Call.Args[2]
+		}
+		reach := func(from, to, avoid *ssa.BasicBlock) bool {
+			if from == to {
+				return true
+			}
+			seen := map[*ssa.BasicBlock]bool{}
+			stack := append([]*ssa.BasicBlock{}, from.Succs...)
+			for len(stack) > 0 {
+				x := stack[len(stack)-1]
+				stack = stack[:len(stack)-1]
+				if x == to {
+					return true
+				}
+				if seen[x] || x == avoid {
+					continue
+				}
+				seen[x] = true
+				stack = append(stack, x.Succs...)
+			}
+			return false
+		}
+		flushArgs := map[ssa.Value]bool{}
+		var flushes []*ssa.Call
+		for _, b := range pf.Blocks {
+			for _, in := range b.Instrs {
+				if call, v := isFlush(in); call != nil {
+					flushes = append(flushes, call)
+					flushArgs[v] = true
+				}
+			}
+		}
+		bad := ""
+		for _, call := range flushes {
+			v := call.Call.Args[2]
+			if v.Referrers() == nil {
+				continue
+			}
+			// phis that still carry v on an edge the flush can precede within the same iteration
+			var work []ssa.Value
+			seenV := map[ssa.Value]bool{}
+			for _, ref := range *v.Referrers() {
+				ph, ok := ref.(*ssa.Phi)
+				if !ok {
+					continue
+				}
+				for i, e := range ph.Edges {
+					if e == v && i < len(ph.Block().Preds) && reach(call.Block(), ph.Block().Preds[i], ph.Block()) {
+						work = append(work, ph)
+					}
+				}
+			}
+			for len(work) > 0 {
+				x := work[len(work)-1]
+				work = work[:len(work)-1]
+				if seenV[x] {
+					continue
+				}
+				seenV[x] = true
+				if flushArgs[x] {
+					bad = p.Position(call.Pos())
+				}
+				if x.Referrers() != nil {
+					for _, ref := range *x.Referrers() {
+						if ph, ok := ref.(*ssa.Phi); ok {
+							work = append(work, ph)
+						}
+					}
+				}
+			}
+		}
+		if len(flushes) == 0 {
+			r.Infof("STRUCT.onceflushed: no direct appendOBUPayload call in AV1Payloader.Payload (moved into a closure or renamed?); rule not decided")
+		} else {
+			n++
+			r.Add("STRUCT.onceflushed", "codecs.(*AV1Payloader).Payload", "an OBU handed to appendOBUPayload cannot reach another appendOBUPayload call", p.Position(pf.Pos()), bad == "",
+				"after the call at "+bad+" the variable keeps the flushed buffer on a path back to a flush")
+		}
+	}
 	// the deprecated frame assembler: the Z (continuation) flag concerns the first element of a packet
 	// only; handing the unchanged pkt.Z to the per-element step on every iteration glues every element to
 	// the kept fragment (or drops it)
